@@ -128,6 +128,12 @@ def _exception_classes(repo: Repo, rep: Report, c=None) -> None:
 def run(repo: Repo, rep: Report, tier: str) -> None:
     BUILD = f"{M_BUILDER}::FieldUnpackerCodeBlockBuilder.build"
     res = fieldblock.analyse(repo)
+    # R07.1 (owned by C07): a look-up without the MISSING sentinel turns an absent required key into None instead of MissingField
+    for _s in sorted(set(res.sentinel_problems)):
+        rep.violation("R07.1", BUILD if "BUILD" in globals() else "mashumaro.core.meta.code.builder::FieldUnpackerCodeBlockBuilder.build",
+                      f"look-up `{MARK.sub('{}', _s)}` without the MISSING sentinel",
+                      "an absent required key is read as None: MissingField is not raised and the field silently becomes None")
+    rep.ok("R07.1", f"{res.skeletons} field blocks use d.get(key, MISSING)", {"blocks": res.skeletons})
     rep.analysed.update({"build_paths": res.paths, "distinct_blocks": res.skeletons, "valuations": res.valuations})
     hp = sorted(set(res.handler_problems))
     for h in hp:
@@ -488,3 +494,25 @@ def run(repo, rep, tier):  # noqa: F811 -- round-6 remedies, batch 3
 _ADDR6D = ' R05.16: in no-field discriminator mode every emitted speculative `return <variant>.<call>` (including the retry after an on-demand compilation) sits inside an emitted try.'
 EXPLANATION += _ADDR6D
 LEVEL_TEXT += _ADDR6D
+
+
+_run_before_r7df = run
+
+
+def run(repo, rep, tier):  # noqa: F811 -- round 7: CodeBuilder.dataclass_fields evaluated on inheritance shapes (typepreds.py)
+    _run_before_r7df(repo, rep, tier)
+    if getattr(rep, "borrowed", False):
+        return
+    from ..core import typepreds as _tp7df
+    _tp7df.builder_method_cases(repo, rep, "R07.9")
+
+
+_ADDR7DF = (" R07.9: CodeBuilder.dataclass_fields is interpreted from its own source (type-level evaluator, stub builder) on six inheritance shapes "
+            "-- two dataclass bases, an own Field, a bare re-annotation, a finished dataclass, a diamond, no ancestor -- and must return, per "
+            "name, the Field object of the nearest declaring ancestor, as dataclasses itself does.")
+EXPLANATION += _ADDR7DF
+LEVEL_TEXT += _ADDR7DF
+
+_ADD_R7S = " Borrowed: R07.1 (every generated look-up is d.get(key, MISSING): absence stays distinguishable from null, so a missing required key raises MissingField)."
+EXPLANATION += _ADD_R7S
+LEVEL_TEXT += _ADD_R7S
